@@ -67,6 +67,9 @@ func WriteStep(w *bufio.Writer, st Step) {
 	fmt.Fprintln(w, st.Op)
 	fmt.Fprintln(w, st.Res)
 	fmt.Fprintln(w, st.PostS.String())
+	for _, q := range st.Queries {
+		fmt.Fprintln(w, q)
+	}
 }
 
 // TestGen generates VERIF_TRACES seeded histories (seeds VERIF_SEED, VERIF_SEED+1, …) of VERIF_STEPS operations each
